@@ -131,7 +131,7 @@ def oracle_executed(o, refres):
             continue
         if c > exp:
             out.append(('too-many-invocations', f'{nid}: {c} > {exp}'))
-        elif success and nid in refres['certain'] and c < exp:
+        elif success and nid in refres['certain'] and c < exp and not _iterated_in_lost_context(nid, refres):
             out.append(('too-few-invocations', f'{nid}: {c} < {exp}'))
     if success:
         for nid in refres['certain']:
@@ -170,9 +170,15 @@ def oracle_kwargs(o, refres):
             out.append(('wrong-default-kwargs', f'{nid}: engine {R.canon(e["kwargs"])} reference {R.canon(exp[i])}'))
     if refres['ok'] and o.outcome[0] == 'value':
         for nid, exp in refres['defaults'].items():
-            if nid in refres['certain'] and dseen.get(nid, 0) < len(exp):
+            if nid in refres['certain'] and dseen.get(nid, 0) < len(exp) and not _iterated_in_lost_context(nid, refres):
                 out.append(('missing-default', f'{nid}: {dseen.get(nid, 0)} < {len(exp)}'))
     return out
+
+
+def _iterated_in_lost_context(nid, refres):
+    """lower bounds are per node, not per iteration: when a node was re-iterated and some candidate lost, the
+    re-iteration may belong to the losing candidate (whose work may be cut short when the run ends)"""
+    return bool(refres['maybe']) and any(i['epoch'] > 0 for i in refres['invocations'].get(nid, []))
 
 
 def oracle_kwargs_model_free(o, program):
